@@ -5,6 +5,7 @@
 #include <rapidcheck.h>
 #include "front.hpp"
 #include "ledger.h"
+#include "isolate.hpp"
 #include <iostream>
 #include <fstream>
 #include <sstream>
@@ -16,7 +17,7 @@ static int g_out_fd = 2;
 
 extern "C" void __sanitizer_set_death_callback(void (*)(void)) __attribute__((weak));
 
-static void death_cb() { if (g_runner) g_runner->write_stats("crashed"); }
+static void death_cb() { if (g_runner && !vf::in_child()) g_runner->write_stats("crashed"); }
 static void alarm_cb(int) { if (g_runner) g_runner->write_stats("hang"); _exit(3); }
 
 static void say(const std::string &s) { ssize_t w = write(g_out_fd, s.data(), s.size()); (void)w; }
@@ -47,6 +48,7 @@ int main(int argc, char **argv)
         else if (a == "--budget") R.budget = atof(next().c_str());
         else if (a == "--samples") R.st.max_samples = (size_t)atoi(next().c_str());
         else if (a == "--alarm") R.case_alarm = (unsigned)atoi(next().c_str());
+        else if (a == "--fill") R.cx.fill_override = (int)strtol(next().c_str(), nullptr, 16);
         else if (a == "--dump") dump = true;
         else if (a == "--verbose") verbose = true;
         else if (a == "--info") { printf("%s\n%s\n%s\n", vf_prop.id, vf_prop.types, vf_prop.rule); return 0; }
